@@ -122,6 +122,35 @@ impl DimensionRegistry {
     }
 }
 
+
+// verification hook (property C06/C07): all dimensions of the registry, sorted
+#[cfg(feature = "verif")]
+impl DimensionRegistry {
+    /// (base dimension names, `derived=base representation`), both sorted
+    pub(crate) fn verif_c06_entries(&self) -> (Vec<String>, Vec<String>) {
+        let mut base: Vec<String> = self
+            .registry
+            .iter_base_entries()
+            .map(|n| n.to_string())
+            .collect();
+        base.sort();
+        let mut derived: Vec<String> = self
+            .registry
+            .iter_derived_entries()
+            .map(|n| {
+                let rep = self
+                    .registry
+                    .get_base_representation_for_name(&n)
+                    .map(|(r, _)| r.to_string())
+                    .unwrap_or_else(|_| "?".into());
+                format!("{n}={rep}")
+            })
+            .collect();
+        derived.sort();
+        (base, derived)
+    }
+}
+
 #[test]
 fn basic() {
     use crate::arithmetic::Rational;
